@@ -79,3 +79,29 @@ Print Assumptions C04_ci_nested.
 
 Example C04_example : tpr (Build_cm2 3 1 0 0) = Some (3 / (3 + 1)) /\ fpr (Build_cm2 3 1 0 0) = None.
 Proof. split; reflexivity. Qed.
+
+(* ---------- narrow integer dtypes (open known finding, DESIGN 12.3): the property quantifies over "all non-negative integer
+   or float matrices"; a matrix held in uint8 / uint16 is one.  Model/NarrowInt.v writes the wrap of the two-cell sums into
+   the model explicitly. ---------- *)
+From SA Require Model.NarrowInt.
+Section NarrowInt.
+Import NarrowInt.
+Local Open Scope Z_scope.
+(* while the cells and their two-cell sums fit the dtype, nothing wraps: the definitions and P + N = POP hold *)
+Theorem C04_narrow_int_fits : forall bits m, 0 < bits -> in_dtype bits m ->
+  tp m + fn m < 2 ^ bits -> fp m + tn m < 2 ^ bits ->
+  p_u bits m = tp m + fn m /\ n_u bits m = fp m + tn m /\ p_u bits m + n_u bits m = pop_u m.
+Proof.
+  intros bits m Hb (A & B & C & D) H1 H2. unfold p_u, n_u, pop_u, wrap.
+  rewrite !Z.mod_small by lia. lia.
+Qed.
+(* ... and as soon as a two-cell sum does not fit, the clause "P + N = POP, every rate in [0,1]" is FALSE of the code as it
+   stands: uint8 matrix [[200, 103], [51, 203]] (the open known finding; the same numbers replayed on the implementation) *)
+Theorem C04_narrow_int_refuted : exists m, in_dtype 8 m /\
+  p_u 8 m + n_u 8 m <> pop_u m /\ p_u 8 m = 47 /\ (1 < tpr_u 8 m)%Q.
+Proof.
+  exists {| tp := 200; fn := 103; fp := 51; tn := 203 |}.
+  split; [unfold in_dtype; cbn; lia|]. split; [vm_compute; discriminate|]. split; [reflexivity|]. vm_compute. reflexivity.
+Qed.
+Print Assumptions C04_narrow_int_refuted.
+End NarrowInt.
